@@ -88,6 +88,7 @@ type Obligation struct {
 	All      map[string]string
 	NoLemmas bool // lemma proofs must not assume the lemma table
 	Uses     []string
+	Native   bool // use the native SMT string theory
 }
 
 type modelVar struct {
